@@ -12,7 +12,7 @@
 (***************************************************************************)
 EXTENDS Integers, Sequences, FiniteSets, TLC, Json
 
-CONSTANTS MaxVer, MaxOps, EmitRecords, WithFaults
+CONSTANTS MaxVer, MaxOps, EmitRecords, WithFaults, WithHints
 
 Apps == {"a1", "a2"}
 VARIABLES code,      \* deployed version of each app (-1: not installed)
@@ -85,6 +85,36 @@ RunOn(S, opname) ==
                /\ UNCHANGED code
 Run == RunOn(Installed, "run")
 
+(* `evolve --hint --execute`: every tracked app is brought to its models by the mutations the DIFF
+   suggests - the written evolutions are not consulted, none of their labels is executed or
+   recorded - while an app seen for the first time is treated as in any run: its tables are
+   created and its whole sequence is recorded.  A hint that needs a value from the user (a
+   non-null column is added: in the chain family, evolution i of a1 for odd i, of a2 for even i)
+   cannot be executed: the run is refused. *)
+NeedsValue(a, i) == IF a = "a1" THEN i % 2 = 1 ELSE i % 2 = 0
+Hintable(a) == \A i \in (stored[a] + 1)..code[a] : ~NeedsValue(a, i)
+RunHinted ==
+    /\ Installed # {}
+    /\ LET S == Installed
+           bad == { a \in S : ~New(a) /\ Changed(a) /\ ~Hintable(a) }
+           ours == \E a \in S : New(a) \/ Changed(a)
+           required == ~baseDone \/ ours
+           none == [a \in Apps |-> {}]
+       IN IF bad # {}
+          THEN /\ Log([op |-> "runhint", apps |-> S, outcome |-> "rejected", executed |-> none])
+               /\ UNCHANGED <<code, stored, tab, rec, execs, baseDone>>
+          ELSE IF ~required
+          THEN /\ Log([op |-> "runhint", apps |-> S, outcome |-> "nothing", executed |-> none])
+               /\ UNCHANGED <<code, stored, tab, rec, execs, baseDone>>
+          ELSE /\ rec' = [a \in Apps |-> [i \in Labels |->
+                               IF a \in S /\ New(a) /\ i \in Pending(a) THEN rec[a][i] + 1 ELSE rec[a][i]]]
+               /\ stored' = [a \in Apps |-> IF a \in S THEN code[a] ELSE stored[a]]
+               /\ tab' = [a \in Apps |-> IF a \in S THEN code[a] ELSE tab[a]]
+               /\ baseDone' = TRUE
+               /\ Log([op |-> "runhint", apps |-> S, outcome |-> IF ours THEN "executed" ELSE "nothing",
+                       executed |-> none])
+               /\ UNCHANGED <<code, execs>>
+
 (* fault: the run fails at the first statement of its first evolution.  Nothing has been committed
    at that point (no app is being created in this run), so nothing at all changes: no row, no
    execution that counts, no signature - and the ledger commands and later runs go on from there *)
@@ -133,6 +163,7 @@ Next == /\ Len(hist) < MaxOps
         /\ \/ \E a \in Apps, v \in 0..MaxVer : Deploy(a, v)
            \/ Run
            \/ (WithFaults /\ RunFails)
+           \/ (WithHints /\ RunHinted)
            \/ \E a \in Apps : RunOnly(a)
            \/ \E a \in Apps, i \in Labels : Mark(a, i)
            \/ \E a \in Apps : MarkAll(a)
@@ -149,13 +180,16 @@ RecordedNeverExecutedAgain ==
     [][ \A a \in Apps, i \in Labels : (rec[a][i] > 0 /\ execs'[a][i] > execs[a][i]) => FALSE ]_vars
 (* only a run that completes records; a rejected or idle run changes nothing *)
 OnlyCompletedRunsRecord ==
-    [][ (last'.op \in {"run", "runonly", "runfail"} /\ last'.outcome # "executed")
+    [][ (last'.op \in {"run", "runonly", "runfail", "runhint"} /\ last'.outcome # "executed")
             => UNCHANGED <<rec, execs, stored, tab>> ]_vars
 (* a run limited to one app leaves the other app's ledger and signature alone *)
 LimitedRunTouchesOnlyItsApp ==
     [][ last'.op = "runonly" => \A a \in Apps \ last'.apps :
             rec'[a] = rec[a] /\ execs'[a] = execs[a] /\ stored'[a] = stored[a] /\ tab'[a] = tab[a] ]_vars
-(* a fresh app's whole sequence is recorded without any of it being executed *)
+(* a hinted run executes and records no written evolution of a tracked app *)
+HintedRunLeavesTrackedLedgersAlone ==
+    [][ last'.op = "runhint" => \A a \in Apps : stored[a] >= 0 => (rec'[a] = rec[a] /\ execs'[a] = execs[a]) ]_vars
+(* a fresh app's whole sequence is recorded without any of it being executed - in hinted runs too *)
 FreshRecordsWithoutExecuting ==
     [][ \A a \in Apps : (stored[a] = -1 /\ stored'[a] >= 0) =>
             /\ \A i \in 1..code[a] : rec'[a][i] = 1
